@@ -282,6 +282,10 @@ func init() {
 			}},
 		Rule{ID: "C08.h", Explain: "ModPow reports a missing inverse as an error: its callers on the verification paths test only the error, so a nil result without an error (big.Int.Exp on a non-invertible base with a negative exponent) is dereferenced (the obligations of C19.b, same rule).",
 			Run: func(P *Program, R *Report) { sharedRule(P, R, "C19", "C19.b", "C08.h", nil) }},
+		Rule{ID: "C08.k", Explain: "no negative numbers reach the verifier: the integer decoders test the sign of the value they decoded (the obligations of C18.a on big.Int.UnmarshalJSON / UnmarshalXML, same rule) - a negative challenge or response makes Exp on a non-invertible base return nil, which the verification arithmetic dereferences.",
+			Run: func(P *Program, R *Report) {
+				sharedRule(P, R, "C18", "C18.a", "C08.k", func(c string) bool { return strings.HasPrefix(c, "big.(*Int).Unmarshal") })
+			}},
 		Rule{ID: "C08.j", Explain: "values remembered for a later comparison are present: in the functions reachable from the verification entry points a *big.Int taken from a proof (the result of an interface method such as SecretKeyResponse, or a field) that is stored in a local map is nil-tested before the store on every path - the value is dereferenced when a later proof is compared with it, so a nil remembered from the first proof panics on the second.",
 			Run: func(P *Program, R *Report) { rememberedValuesRule(P, R, "C08.j") }},
 		Rule{ID: "C08.i", Explain: "optional key material: a well-formed public key that does not support revocation has no ECDSA key (the field is nil). In the functions reachable from the verification entry points the issuer's ECDSA key is handed to a call (the signature check dereferences it) only after a nil test of that field on every path from the entry point.",
